@@ -26,6 +26,7 @@ def run(tier, seed, prop=PROP):
     n = {"quick": (60, 20, 30, 40), "thorough": (600, 150, 400, 600)}[tier]
     scs = mx.fam_pairs(rng, n[0]) + mx.fam_histories(rng, n[1]) + mx.fam_random(rng, n[2])
     scs += mx.tlc_graph_scripts(rng, n[3], cov)
+    scs += mx.fam_acceptor_first(rng, 8 if tier == "quick" else 80)
     scs += mx.fam_lookup_race(rng, 6 if tier == "quick" else 60) + mx.fam_down(rng, 10 if tier == "quick" else 100, prefix="cdn")
     results, outdir = mx.run_driver(binary, scs)
     # ---- E3: every recorded trace must be a behaviour of the spec
